@@ -174,4 +174,14 @@ def vectors():
             v.append(("wif", dict(compressed=comp, testnet=(kk % 2 == 0)), {"k": "%064x" % kk}))
     v.append(("from_int", dict(via="init"), {"k": 0}))
     v.append(("from_int", dict(via="init"), {"k": N}))
+    # boundary vectors (not from /repo/tests): the generator's x coordinate under every prefix byte that is not 02/03,
+    # an x with no square root under 02, and off-curve (x, y) in the 64/65-byte forms
+    gx = "79be667ef9dcbbac55a06295ce870b07029bfcdb2dce28d959f2815b16f81798"
+    gy = "483ada7726a3c4655da4fbfc0e1108a8fd17b448a68554199c47d08ffb10d4b8"
+    for pre in ("00", "01", "04", "05", "06", "07", "ff"):
+        v.append(("sec_reject", dict(n=33), {"b": pre + gx}))
+    v.append(("sec_reject", dict(n=33), {"b": "02" + "%064x" % 5}))
+    v.append(("sec_reject", dict(n=65), {"b": "04" + gx + gy[:-1] + "9"}))
+    v.append(("sec_reject", dict(n=64), {"b": gx + gy[:-1] + "9"}))
+    v.append(("sec_reject", dict(n=65), {"b": "04" + gx + gy}))
     return v
